@@ -584,7 +584,16 @@ func checkEvaluatorPipeline(r *Run, prog *Program, a *Anchors, pfx string) {
 	for _, sm := range psE.Run(a.EvaluateM) {
 		for _, ev := range sm.callsTo(a.Dispatch) {
 			npaths++
-			elems, ok := sliceElems(sm.St, ev.Args[2], ev.Deref[2])
+			optArg, optDeref := ev.Args[2], ev.Deref[2]
+			if f, _ := calleeOfSym(optArg); f != nil && f == a.GetOpts {
+				// the dispatcher takes the option set: Evaluate folds its literal list first
+				for _, e2 := range sm.Events() {
+					if e2.Res != nil && e2.Res.Key() == optArg.Key() && len(e2.Args) == 1 {
+						optArg, optDeref = e2.Args[0], e2.Deref[0]
+					}
+				}
+			}
+			elems, ok := sliceElems(sm.St, optArg, optDeref)
 			if !ok {
 				r.Check(pfx+".pipeline", "evaluate:options-literal", prog.pos(ev.Instr.Pos()), false, "the options Evaluate hands to the dispatcher are not a literal list of re-issued options: "+shortKey(ev.Args[2]))
 				continue
@@ -724,6 +733,10 @@ func checkForwarding(r *Run, prog *Program, a *Anchors, pfx string) {
 	evalAnchor := func(f *ssa.Function) bool {
 		return f == a.Dispatch || f == a.MatchEval || f == a.CollEval || f == a.GetValue
 	}
+	isOptSet := func(t types.Type) bool {
+		ot := optRoles(prog).optionsT
+		return ot != nil && types.Identical(t, ot)
+	}
 	r.Floor(pfx+".forwarding", 6)
 	n := 0
 	for _, fn := range prog.ModuleFuncs() {
@@ -731,7 +744,10 @@ func checkForwarding(r *Run, prog *Program, a *Anchors, pfx string) {
 			continue
 		}
 		var pOwn *Sym
-		if isOptSlice(fn.Params[len(fn.Params)-1].Type()) && (fn.Signature.Variadic() || evalAnchor(fn)) {
+		if isOptSet(fn.Params[len(fn.Params)-1].Type()) && evalAnchor(fn) {
+			// the evaluation functions take the option set the list folds to
+			pOwn = paramSym(fn.Params[len(fn.Params)-1])
+		} else if isOptSlice(fn.Params[len(fn.Params)-1].Type()) && (fn.Signature.Variadic() || evalAnchor(fn)) {
 			// the options list is the last parameter: variadic, or an ordinary slice of one of the evaluation functions
 			// (a helper's slice parameter may be anything, e.g. the bindings to add)
 			pOwn = paramSym(fn.Params[len(fn.Params)-1])
@@ -764,6 +780,12 @@ func checkForwarding(r *Run, prog *Program, a *Anchors, pfx string) {
 			if np := c.Signature.Params().Len(); np > 0 && isOptSlice(c.Signature.Params().At(np-1).Type()) && (c.Signature.Variadic() || evalAnchor(c)) {
 				return false // a sub-evaluation: its call is what the rule looks at
 			}
+			if np := c.Signature.Params().Len(); np > 0 && isOptSet(c.Signature.Params().At(np-1).Type()) && evalAnchor(c) {
+				return false
+			}
+			if c.Parent() != nil || (c.Pkg != nil && c.Pkg.Func("WithLocalVariable") == c) {
+				return true // local closures and the binding constructor applied in place: part of the caller
+			}
 			return bexprHelper(prog, a, c) && !recursive(prog, c) && !c.Signature.Variadic()
 		}
 		type verdict struct {
@@ -779,10 +801,16 @@ func checkForwarding(r *Run, prog *Program, a *Anchors, pfx string) {
 				}
 				last := ev.Args[len(ev.Args)-1]
 				lt := ev.Callee.Signature.Params().At(ev.Callee.Signature.Params().Len() - 1).Type()
-				if !isOptSlice(lt) || !(ev.Callee.Signature.Variadic() || evalAnchor(ev.Callee)) {
+				var ok2 bool
+				var why string
+				switch {
+				case isOptSet(lt) && evalAnchor(ev.Callee):
+					ok2, why = derivedOptionSet(prog, sm.St, last, pOwn)
+				case isOptSlice(lt) && (ev.Callee.Signature.Variadic() || evalAnchor(ev.Callee)):
+					ok2, why = derivedFromOptionsSym(sm.St, last, pOwn)
+				default:
 					continue
 				}
-				ok2, why := derivedFromOptionsSym(sm.St, last, pOwn)
 				v := seen[ev.Instr]
 				if v == nil {
 					v = &verdict{ok: true}
@@ -922,4 +950,31 @@ func init() {
 		r.Explain = "Decides: every option constructor performs exactly one unconditional store, of its own parameter, into its own field and reads no option field (so distinct options commute and the last of repeated options wins — getOpts applies them in slice order over the defaults); every field of the options type has a pipeline; CreateEvaluator copies tag name, hook and unknown value from getOpts(its options) into Evaluator fields that have no other writer; every Evaluate re-issues exactly those (the unknown value iff configured); every call between functions taking ...Option forwards the caller's options (itself or a fresh extended copy); the defaults are the documented neutral values (\"bexpr\", 0, nil, nil); tag name and hook reach pointerstructure's Config at both lookups, the unknown value is consulted only on ErrNotFound, the budget reaches the parser unmodified iff non-zero. NOT decided: what a user hook does with the value it is given."
 		r.Assume = append(r.Assume, "pointerstructure applies Config.ValueTransformationHook and Config.TagName as documented")
 	})
+}
+
+// derivedOptionSet: the option set handed on is the caller's own, or the caller's own with only the list of bindings
+// replaced (by a fresh copy of the caller's bindings, extended).
+func derivedOptionSet(prog *Program, st *pstate, v, own *Sym) (bool, string) {
+	if v.Key() == own.Key() {
+		return true, ""
+	}
+	bf := optField(prog, "WithLocalVariable")
+	if v.K != sStruct || v.A == nil || v.A.Key() != own.Key() {
+		return false, "an option set that is not the caller's: " + shortKey(v)
+	}
+	for f := range v.F {
+		if f != bf {
+			return false, "option " + f + " is replaced on the way to the sub-evaluation"
+		}
+	}
+	bl := v.F[bf]
+	if bl == nil {
+		return true, ""
+	}
+	base, parts := appendChain(st, bl)
+	want := (&Sym{K: sField, A: own, Str: bf}).Key()
+	if base != nil && base.IsNil() && len(parts) >= 1 && parts[0].Args[1].Key() == want {
+		return true, ""
+	}
+	return false, "the bindings handed on are not a fresh copy of the caller's, extended"
 }
